@@ -12,7 +12,10 @@ import (
 // such a channel or a node-level operation addressed to the user.
 func vh_C11_connect_reply_first() {
 	positioned := vChoice("positioned", 2) == 1
-	replyNoQueue := vChoice("reply_without_queue", 2) == 1
+	replyNoQueue := false
+	if vParam("c11_noqueue", 0) == 1 {
+		replyNoQueue = vChoice("reply_without_queue", 2) == 1
+	}
 	n := vNewNode(Config{})
 	n.OnConnecting(func(ctx context.Context, e ConnectEvent) (ConnectReply, error) {
 		return ConnectReply{
